@@ -18,6 +18,16 @@ C41 line-protocol driver.
       death of e (or a reap it caused). eP/eQ (only for sides that cached e initially): watch = the watcher still waits, reaped.
       DIFF: differs from the Lean model run with the generated table. SPEC: the reported final state violates
       no-split-brain / reused-never-closed / cache-new-only-if-peer-does (decided from the reported state alone).
+  win <preP> <preQ> <step,step,…> => P=<entry>;Q=<entry>;closed=<conns>;Pc=<r>;Qc=<r>
+      ONE interleaving (one dial; P dials c; both peers cache e) executed by two REAL overlay.QUIC transports: the
+      negotiation streams are relayed through the harness, which delivers each cache-status report when the schedule
+      says that the receiving end decides, and lets e die (kE, then both close-watchers eP, eQ) in between; the state
+      is reported once everything has settled (all due reaps done). closed: lower case = closed with the
+      negotiation's application error codes (508 / 406), upper case = closed in any other way.
+      SPEC: the reported state violates the property (decided from the reported state alone). DIFF: caches,
+      results or the set of closed connections differ from the Lean model run of the same schedule (plus the reaps
+      that are due after it).
+  table => unreadable:<why>       the current source is not in the shape `extract c41-lines` understands (always DIFF)
   live <trial> => <outcome>                                        real overlay.QUIC transports, simultaneous dials
   relive <trial> => <outcome>     real transports: connect, the connection dies, reconnect the other way round,
       then a late second reap of the dead connection; SPEC: afterwards one peer caches a live connection that the
@@ -80,6 +90,22 @@ def stStr (pre : Entry × Entry) (s : St) : String :=
   let w (b : Bool) : String := if b then "watch" else "reaped"
   s!"P={entryStr s.cacheP};Q={entryStr s.cacheQ};closed={closedStr s};Pc={resStr s.pPc};Qc={resStr s.pQc};Qd={resStr s.pQd};Pd={resStr s.pPd}"
     ++ (if pre.1.isSome then ";eP=" ++ w s.watchP else "") ++ (if pre.2.isSome then ";eQ=" ++ w s.watchQ else "")
+
+/-- the reaps that are due, until none is left (what the goroutines of the real transports do by themselves) -/
+def settle (s : St) : St :=
+  let due : List Step := allProcs.map .reap ++ [.reapE .P, .reapE .Q]
+  (List.range 4).foldl (fun s _ => run genTable s due) s
+
+/-- `win` lines: what two real transports can report -/
+def winRes : PC → String
+  | .done _ (.reused none) _ => "reused:-"
+  | .done _ (.reused (some x)) _ => "reused:" ++ connStr x
+  | .done _ .fresh _ => "fresh"
+  | .done _ .err _ => "err"
+  | .snapped _ _ => "snapped"
+  | .idle => "idle"
+def winStr (s : St) : String :=
+  s!"P={entryStr s.cacheP};Q={entryStr s.cacheQ};closed={closedStr s};Pc={winRes s.pPc};Qc={winRes s.pQc}"
 
 def boolS (b : Bool) : String := if b then "true" else "false"
 def actStr (a : Act) : String :=
@@ -174,6 +200,19 @@ def drvStep (_ : Unit) (toks : List String) (rhs : String) : Unit × Verdict :=
         let m := stStr (pp, pq) (run genTable (init (dual = "1") (pp, pq) (true, true) true) l)
         if m = rhs then ((), .ok) else ((), .diff m)
     | _, _, _ => ((), .bad "sched args")
+  | ["win", pp, pq, steps] =>
+    if rhs.startsWith "setup:" then ((), .ok) else     -- the scenario could not be set up (validated only)
+    match parseEntry pp, parseEntry pq, (steps.splitOn ",").mapM parseStep with
+    | some pp, some pq, some l =>
+      -- the harness reports a settled state; one dial, no stale reap: the property is judged unconditionally
+      match specOf rhs with
+      | some w => ((), .spec w)
+      | none =>
+        let s := settle (run genTable (init false (pp, pq) (false, false) true) l)
+        let same := ["P", "Q", "Pc", "Qc"].all (fun k => field rhs k == field (winStr s) k) &&
+          (field rhs "closed").toLower == (closedStr s).toLower
+        if same then ((), .ok) else ((), .diff (winStr s))
+    | _, _, _ => ((), .bad "win args")
   | ["reap", ld] =>
     match parseBool ld with
     | some ld =>
@@ -181,6 +220,10 @@ def drvStep (_ : Unit) (toks : List String) (rhs : String) : Unit × Verdict :=
       let m := s!"del={boolS a.del},closeCached={boolS a.closeCached},closeTrigger={boolS a.closeTrigger}"
       if m = rhs then ((), .ok) else ((), .diff m)
     | none => ((), .bad "reap args")
+  | ["table"] =>
+    -- the harness could not read the decision code (extract c41-lines failed): the table part of the correspondence
+    -- is gone; the scenarios with real transports that follow are still judged
+    ((), .diff "readable: the generated table is the translation of a decision code that extract c41-lines can read")
   | "live" :: _ =>
     if rhs.startsWith "ok" then ((), .ok) else ((), .spec rhs)
   | "relive" :: _ => ((), reliveVerdict rhs)
